@@ -671,12 +671,12 @@ def run_property(prop, tier, seed, jobs_n):
     t_start = time.time()
     ctx = Ctx()
     jobs = select(ctx, prop, tier)
-    only = os.environ.get('VERIF_ONLY')  # development aid: regex on unit/obligation; evidence must then go elsewhere
+    only = os.environ.get('VERIF_ONLY')  # development aid: regex on unit/obligation/config; evidence must then go elsewhere
     if only:
         if not os.environ.get('VERIF_EVIDENCE_DIR'):
             print('VERIF_ONLY needs VERIF_EVIDENCE_DIR (a partial run must not overwrite the evidence)')
             return 2
-        jobs = [(u, ob, cfg) for u, ob, cfg in jobs if re.search(only, '%s/%s' % (u['unit'], ob['id']))]
+        jobs = [(u, ob, cfg) for u, ob, cfg in jobs if re.search(only, '%s/%s/%s' % (u['unit'], ob['id'], cfg))]
     meta = load_json(os.path.join(ROOT, 'props_meta.json')).get(prop, {})
     level = meta.get('level', 'proof')
     undecided = []
@@ -813,9 +813,14 @@ def run_property(prop, tier, seed, jobs_n):
     # covalidation (thorough tier): every cover-goal witness found by cbmc is replayed on the REAL C++ code; the real code must
     # pass the same CHECKs there (a mismatch means the lowering or a stub misrepresents the code: undecided, never a verdict)
     coval = {'witnesses': 0, 'replayed': 0, 'agree': 0, 'skipped': 0}
+    failed_keys = {(r['unit'], r['ob'], r['config']) for r in results if r.get('status') != 'proved'}
     for c in covers:
         tr = c.get('cover_traces')
         if not tr:
+            continue
+        if (c['unit'], c['ob'], c['config']) in failed_keys:
+            # the obligation itself failed (violation or known finding): its CHECKs are expected to fail on some witnesses too
+            coval['skipped'] += len(tr)
             continue
         u = ctx.units[c['unit']]
         ob = [o for o in u['obligations'] if o['id'] == c['ob']][0]
